@@ -590,6 +590,59 @@ theorem accepted_succ : ∀ (ms : List Move) (p : Pos) (k : Nat), accepted p ms 
       exact ⟨m, q, ms, hq, by omega, rfl⟩
     · exact ih p k h
 
+/-! conservation without a configuration: the totals of the position itself -/
+
+theorem totals_movePlace {p q : Pos} {m : Move} (hwf : p.WF)
+    (hib : p.inBounds m.x m.y = true) (h : Impl.movePlace p m = .ok q) (c : Color) :
+    (q.onBoard c false : Int) + q.stones c = (p.onBoard c false : Int) + p.stones c ∧
+    (q.onBoard c true : Int) + q.caps c = (p.onBoard c true : Int) + p.caps c := by
+  obtain ⟨pc, _, _, hempty, hboard, _, _, hst, hcp, _⟩ := movePlace_ok h
+  have hb := (inBounds_iff p _ _).mp hib
+  have hi : p.idx m.x.toNat m.y.toNat < p.board.length := by
+    rw [hwf.2]; exact idx_lt (by omega) (by omega)
+  have hcnt : ∀ cap, cnt c cap q.board = cnt c cap p.board + countStack c cap [pc] := by
+    intro cap
+    have := cnt_set c cap p.board _ hi [pc]
+    rw [← atI_eq_getD, hempty, countStack_nil] at this
+    rw [hboard]; omega
+  constructor
+  · rw [onBoard_eq, onBoard_eq, hcnt false, hst c, countStack_singleton]
+    by_cases hc : pc.color = c <;> by_cases hk : pc.kind = .cap <;> simp [hc, hk] <;> omega
+  · rw [onBoard_eq, onBoard_eq, hcnt true, hcp c, countStack_singleton]
+    by_cases hc : pc.color = c <;> by_cases hk : pc.kind = .cap <;> simp [hc, hk] <;> omega
+
+theorem totals_moveSlide {p q : Pos} {m : Move} (hwf : p.WF)
+    (hib : p.inBounds m.x m.y = true) (hsl : m.type.isSlide = true)
+    (h : Impl.moveSlide p m = .ok q) (c : Color) (cap : Bool) :
+    q.onBoard c cap = p.onBoard c cap ∧ q.stones c = p.stones c ∧ q.caps c = p.caps c := by
+  obtain ⟨ds, n, nb, hply, hpos, hn, hle, hloop, rfl⟩ := moveSlide_ok h
+  have hb := (inBounds_iff p _ _).mp hib
+  have hxn : m.x.toNat < p.size := by omega
+  have hyn : m.y.toNat < p.size := by omega
+  have hi : p.idx m.x.toNat m.y.toNat < p.board.length := by
+    rw [hwf.2]; exact idx_lt hxn hyn
+  have hsum := sum_map_toNat ds hpos
+  have hres := slideLoop_inv p hwf _ _ (isSlide_unitDir hsl) (ds.map Int.toNat) m.x m.y
+    ((p.atI m.x m.y).take n) (p.board.set (p.idx m.x.toNat m.y.toNat) ((p.atI m.x m.y).drop n)) nb
+    (by rw [List.length_set]; exact hwf.2)
+    (by
+      intro a b ha hb' hab
+      have hne := ahead_ne hb.1 hb.2.2.1 hab
+      have := getD_set_idx p.board hwf.2 hxn hyn ha hb' (s := (p.atI m.x m.y).drop n)
+      rw [if_neg hne] at this
+      exact this)
+    (by rw [List.length_take]; omega)
+    hloop
+  obtain ⟨_, r2, _⟩ := hres
+  refine ⟨?_, rfl, rfl⟩
+  rw [onBoard_eq, onBoard_eq]
+  show cnt c cap nb = cnt c cap p.board
+  have e1 := r2 c cap
+  have e2 := cnt_set c cap p.board _ hi ((p.atI m.x m.y).drop n)
+  rw [← atI_eq_getD] at e2
+  have e3 := countStack_take_drop c cap (p.atI m.x m.y) n
+  omega
+
 /-! Unfolding facts.  (Equation lemmas are generated in the module that first unfolds a
     definition; unfolding them here keeps `Props/C04.lean` to property theorems only.) -/
 
